@@ -2,9 +2,10 @@
 # tools/seed_matrix.sh [tier] : run, for every seeded change, the check of the property it breaks (plus extra checks given in
 # tools/seed_extra.txt) against a scratch copy with the patch applied; prints one line per (seed, check)
 tier=${1:-quick}
+filter=${2:-.}
 cd /verif
 for d in seeded/*/; do
-  n=$(basename $d); p=$(python3 -c "import json;print(json.load(open('$d/meta.json'))['breaks_property'])")
+  n=$(basename $d); echo $n | grep -Eq "$filter" || continue; p=$(python3 -c "import json;print(json.load(open('$d/meta.json'))['breaks_property'])")
   extra=$(grep "^$n " tools/seed_extra.txt 2>/dev/null | cut -d' ' -f2-)
   for c in $p $extra; do
     r=$(tools/try_seed.sh $d/patch.diff $tier $c 2>&1 | grep '^== ' | head -1)
